@@ -190,6 +190,33 @@ Definition populate_package (o : nat) (d : string) (a : apk) : list astep :=
 Definition open_tar (d : string) (dath : string) : list astep :=
   [Rebuild (PMember d MDat dath) (PMember d MTar dath)].
 
+(* ---- builders ---------------------------------------------------------------
+   One protocol instance each.  [origin n] is what the origin serves for the
+   key the advertised name [n] stands for.  A reader is cachedPackage on a
+   directory where control and data sections are present: its only effect on
+   the disk is PackageData's rebuild of <hash>.dat.tar when that is missing. *)
+Inductive builder :=
+| BIndex (dir etag : string)
+| BPackage (dir : string) (a : apk)
+| BReader (dir dath : string).
+
+Definition is_reader (b : builder) : bool := match b with BReader _ _ => true | _ => false end.
+
+Definition prog_of (origin : path -> content) (o : nat) (b : builder) : list astep :=
+  match b with
+  | BIndex dir e => populate_index o dir e (origin (PIndex dir e))
+  | BPackage dir a => populate_package o dir a
+  | BReader dir dath => open_tar dir dath
+  end.
+
+(* builder number k gets temporary-name identity k *)
+Fixpoint progs_from (origin : path -> content) (o : nat) (bs : list builder) : list (list astep) :=
+  match bs with
+  | [] => []
+  | b :: t => prog_of origin o b :: progs_from origin (S o) t
+  end.
+Definition progs (origin : path -> content) (bs : list builder) := progs_from origin 0 bs.
+
 (* ---- the readers --------------------------------------------------------- *)
 Record members := { m_ctl : content; m_sig : option content; m_dat : content; m_tar : content }.
 Inductive lookup := Miss | NeedsRebuild | Hit (m : members).
@@ -243,7 +270,6 @@ Definition is_twrite (e : tev) : bool := match e with TWrite _ => true | _ => fa
 Fixpoint accepts_skel (prog : list astep) (tr : list tev) : bool :=
   match prog, tr with
   | [], [] => true
-  | MkdirAll p :: prog', TMkdir q :: tr' => path_eqb p q && accepts_skel prog' tr'
   | MkTemp p :: prog', TMkdir q :: tr' => path_eqb p q && accepts_skel prog' tr'
   | Create p :: prog', TCreate q :: tr' => path_eqb p q && accepts_skel prog' tr'
   | Close p :: prog', TClose q :: tr' => path_eqb p q && accepts_skel prog' tr'
@@ -264,7 +290,11 @@ Fixpoint writes_open (opened : list path) (tr : list tev) : bool :=
   | _ :: tr' => writes_open opened tr'
   end.
 
+(* MkdirAll of a cache directory is not compared either: it issues mkdir only
+   for the components that are missing *)
+Definition is_mkdirall (a : astep) : bool := match a with MkdirAll _ => true | _ => false end.
+
 Definition accepts (prog : list astep) (tr : list tev) : bool :=
-  accepts_skel (List.filter (fun a => negb (is_append a)) prog)
+  accepts_skel (List.filter (fun a => negb (is_append a || is_mkdirall a)) prog)
                (List.filter (fun e => negb (is_twrite e)) tr)
   && writes_open [] tr.
